@@ -29,10 +29,10 @@ Contents
 * T7 `C08_every_exit_noticed_once_{ofo,arfo,sofo}` — the glue, all three types, ALL histories.
 * one-for-one, closed system, ALL histories: `C08_ofo_no_panic` (no panic, handleAction terminates).
 * one-for-one tracking of the children table: `C08_ofo_tracking_*_step` and the closure `C08_all_stopped_ofo_partial`
-  (all histories outside the regions D26/D27).
+  (all histories outside the region D26).
 * all/rest-for-one WITHOUT KeepOrder, closed system, ALL histories: `C08_no_panic_arfo_closed_partial`.
 * refuted full statements (listed findings) with proved counterexamples:
-  `C08_no_panic_arfo_full` (D18), `C08_prescribed_set_full` (D25), `C08_all_stopped_ofo_full` (D26, D27),
+  `C08_no_panic_arfo_full` (D18), `C08_prescribed_set_full` (D25), `C08_all_stopped_ofo_full` (D26),
   and the partial results that do hold.
 -/
 namespace ErgoVerif.Props.C08
@@ -165,8 +165,15 @@ theorem C08_disabled_stays_down_arfo (s : ARFO) (name pid : Nat) (r : Reason) (n
 /-- StartChild on a disabled spec is refused and the restart scan never picks a disabled spec -/
 theorem C08_disabled_not_started (s : OFO) (name : Nat) (c : ChildSpec)
     (hf : findName name s.spec = some c) (hdis : c.disabled = true) (hm : s.mode = 0) :
-    (s.childSpec name).2 = .err .disabled := by
-  simp [OFO.childSpec, hm, hf, hdis]
+    (s.childSpec name).2 = .err .disabled ∨ (s.childSpec name).2 = .err .strategyActive := by
+  cases hs : s.shutdown <;> simp [OFO.childSpec, hm, hf, hdis, hs]
+
+/-- D27 repaired: while a one-for-one supervisor is stopping its children (significant child gone, restart intensity
+exceeded, foreign exit) StartChild / AddChild / EnableChild are refused and change nothing -/
+theorem C08_ofo_refuses_while_shutting_down (s : OFO) (name : Nat) (sig : Bool) (h : s.shutdown = true) :
+    s.childSpec name = (s, .err .strategyActive) ∧ s.childAddSpec name sig = (s, .err .strategyActive) ∧
+    s.childEnable name = (s, .err .strategyActive) :=
+  ⟨OFO.childSpec_shut s name h, OFO.childAddSpec_shut s name sig h, OFO.childEnable_shut s name h⟩
 
 /-- D19 repaired: DisableChild on a spec whose child is not running disables the spec -/
 theorem C08_disable_not_running (s : OFO) (name : Nat) (c : ChildSpec)
@@ -307,7 +314,7 @@ theorem C08_ofo_no_panic (sp : SupSpec) (hv : ValidSpec sp) (c : Loop OFO) (h : 
 `OFO.TInv m kids`: spec names are distinct and non-empty; in normal operation the non-zero pids stored in the specs
 are exactly the pids of `Supervisor.children` (with the right spec name); while shutting down the wait set is exactly
 that set and a final reason is recorded.  The theorems below are the inductive steps for the exit dispatch and for a
-spawn; `C08_all_stopped_ofo_partial` further down is the closure over all histories that avoid D26/D27. -/
+spawn; `C08_all_stopped_ofo_partial` further down is the closure over all histories that avoid D26. -/
 
 /-- exit of a known child in normal operation: the invariant is re-established for the table without that child, and
 the answer is good: a `start` is for a spec without a child; `terminateChildren` on entering shutdown makes the
@@ -487,15 +494,15 @@ theorem C08_prescribed_set_counterexample : ¬ C08_prescribed_set_full := by
 def C08_all_stopped_ofo_full : Prop :=
   ∀ sp, ValidSpec sp → ∀ c, OfoReach sp c → ∀ r, c.status = .terminated r → c.alive = []
 
-/-- histories of the closed one-for-one system that stay out of the two listed regions: no EnableChild for a spec that
-still has an entry in the children table (D26), no StartChild/AddChild/EnableChild while shutting down (D27) -/
+/-- histories of the closed one-for-one system that stay out of the listed region D26: no EnableChild (outside a
+shutdown, where it is refused anyway) for a spec that still has an entry in the children table -/
 def OfoSafeReach (sp : SupSpec) (c : Loop OFO) : Prop := ∃ ls, run ofoStepSafe (ofoBoot sp) ls = some c
 
 theorem ofo_track {sp : SupSpec} (hv : ValidSpec sp) {c : Loop OFO} (h : OfoSafeReach sp c) : OFO.Track c := by
   obtain ⟨ls, hr⟩ := h
   exact run_inv (Inv := OFO.Track) (fun s a s' hi hs => OFO.step_track s s' a hi hs) (OFO.boot_track sp hv) hr
 
-/-- the strongest statement that holds for one-for-one: outside D26/D27, for every valid spec and EVERY history
+/-- the strongest statement that holds for one-for-one: outside D26, for every valid spec and EVERY history
 (children dying at any moment, exits handled in any order, spawn failures, foreign exits, management calls):
 the machine's pids are exactly the children table; a terminated supervisor has no child left, running or unnoticed;
 a supervisor that is shutting down and still alive is waiting for an existing child (it cannot hang); no panic -/
@@ -531,15 +538,12 @@ theorem C08_all_stopped_ofo_counterexample : ¬ C08_all_stopped_ofo_full := by
   revert this
   decide
 
-/-- D27: c2 has exited normally; the significant c3 dies (c1 is told to stop); StartChild c2 is accepted;
-c1 terminates and so does the supervisor, with the new c2 (pid 4) running -/
-theorem C08_all_stopped_ofo_counterexample_D27 : ¬ C08_all_stopped_ofo_full := by
-  intro h
-  have := h (sp3 false false .temporary true true) (sp3_valid _ _ _ _ _)
-    _ ⟨[.die 2 .normal, .deliver 2 1000 [], .die 3 (.other 1), .deliver 3 1001 [], .startChild 2 0 [],
-        .die 1 (.other 1), .deliver 1 1002 []], rfl⟩ (.other 1) (by decide)
-  revert this
-  decide
+/-- the history that broke it before D27 was repaired (StartChild c2 accepted while c1 was being stopped: the supervisor
+terminated with the new c2 running) now ends with nothing left: the call is refused -/
+example : ∃ c, run ofoStepSafe (ofoBoot (sp3 false false .temporary true true))
+      [.die 2 .normal, .deliver 2 1000 [], .die 3 (.other 1), .deliver 3 1001 [], .startChild 2 0 [],
+       .die 1 (.other 1), .deliver 1 1002 []] = some c ∧ c.status = .terminated (.other 1) ∧ c.alive = [] :=
+  ⟨_, rfl, by decide⟩
 
 /-! ## non-vacuity -/
 
